@@ -182,7 +182,27 @@ def workload(res):
     for _ in range(200000 if thorough else 30000):
         n = rng.randint(3, 64)
         B.append(bytes(rng.choice([rng.randrange(256), rng.choice(b"'\"\\\n\t ab\x00\x7f\x80\xff")]) for _ in range(n)))
+    # long runs of the characters that are counted (quotes) or that change the length (escapes), around the sizes where a
+    # narrow counter would wrap
+    for n in (127, 128, 129, 254, 255, 256, 257, 258, 300, 511, 512, 513, 768, 1000, 1024, 4096, 65535, 65536, 65537):
+        for unit in (b"'", b'"', b"\\", b"\n", b"\x00", b"\xff", b"a"):
+            B.append(unit * n)
+            B.append(unit * n + b"'")
+            B.append(b'"' + unit * n)
+            B.append(unit * (n // 2) + b"'\"" + unit * (n - n // 2))
+        B.append(b"'" * n + b'"' * n)
+        B.append(b"'" * n + b'"' * (n - 1))
+        B.append(b"'" * (n - 1) + b'"' * n)
     S.append("")
+    for n in (127, 128, 129, 254, 255, 256, 257, 258, 300, 511, 512, 513, 768, 1000, 1024, 4096, 65535, 65536, 65537):
+        for unit in ("'", '"', "\\", "\n", "\x00", "\x7f", "é", "\u0800", "\U0001F600", "\u0378", "a"):
+            S.append(unit * n)
+            S.append(unit * n + "'")
+            S.append('"' + unit * n)
+            S.append(unit * (n // 2) + "'\"" + unit * (n - n // 2))
+        S.append("'" * n + '"' * n)
+        S.append("'" * n + '"' * (n - 1))
+        S.append("'" * (n - 1) + '"' * n)
     step = 1 if thorough else 5
     start = 0 if thorough else res.seed % 5
     cps = [c for c in range(start, 0x110000, step) if not (0xD800 <= c <= 0xDFFF)]
